@@ -38,14 +38,14 @@ LEAN_MODULE = "ElfioVerif.Props.C08"
 THEOREMS = ["ElfioVerif.C08.get_total", "ElfioVerif.C08.get_total_wf", "ElfioVerif.C08.get_refines",
             "ElfioVerif.C08.get_sound", "ElfioVerif.C08.get_unterminated_none", "ElfioVerif.C08.get_beyond_none",
             "ElfioVerif.C08.add_refines", "ElfioVerif.C08.add_get", "ElfioVerif.C08.get_stable",
-            "ElfioVerif.C08.add_all_get", "ElfioVerif.C08.index0_empty", "ElfioVerif.C08.add_null_noop"]
+            "ElfioVerif.C08.add_all_refines", "ElfioVerif.C08.add_all_get", "ElfioVerif.C08.index0_empty", "ElfioVerif.C08.add_null_noop"]
 SITES = ["str_get_", "str_add_", "sec32_insert", "sec64_insert"]
 RULE = ("tables created empty / created by set_data with exact allocation / loaded eagerly or lazily from a "
         "saved file (well-formed, unterminated last string, no leading NUL, empty, all-NUL), x{ELF32,ELF64}x{LSB,MSB}; "
         "0-40 additions (empty, repeated, high bytes, embedded NUL, 200-600 byte strings, const char* / std::string / "
         "nullptr), every returned index re-queried immediately, after later additions and after save+reload (lazy and "
         "eager); lookups at 0, size-1, size, size+1, 2^32-1, 2^31, every index of small tables, random indices; "
-        "thorough adds all sequences of <=3 additions over a 5-string alphabet on 5 setups with every index queried "
+        "thorough adds all sequences of <=4 additions (quick: <=2) over a 5-string alphabet on 5 setups with every index queried "
         "after every addition. non-trivial = some lookup returned a non-empty string; distinct by md5 of the case text")
 ASSUMPTIONS = ["new(nothrow) succeeds for the sizes generated (<= ~100 KiB)",
                "table size stays below 2^32 (Elf_Word positions) - explicit hypothesis of add_refines/add_get",
@@ -170,7 +170,7 @@ def gen_cases(rng, tier):
     setups = [("new cls=64 enc=lsb type=3", b""), ("loadsec cls=32 enc=msb lazy=1 type=3 data=007800", b"\0x\0"),
               ("loadsec cls=64 enc=lsb lazy=0 type=3 data=007879", b"\0xy"),
               ("new cls=32 enc=lsb type=3\nset 6162", b"ab"), ("loadsec cls=64 enc=msb lazy=1 type=3 data=-", b"")]
-    L = 2 if tier == "quick" else 3
+    L = 2 if tier == "quick" else 4
     k = 0
     for st, d in setups:
         for ln in range(0, L + 1):
